@@ -4,6 +4,8 @@ import SaModel.Generated.ArithSiteLinks
 The elaboration-time check behind the obligations `SaModel.Props.C16Links` (every `model:` reference of the site
 inventory) and `SaModel.Props.C17Links` (the reader-side references): see the header of `Props/C16Links.lean` for what is
 checked.  Meta code only (no theorem, no model definition); it runs in whatever environment the importing file has built.
+`readers` mode also PRINTS (never fails on) the other direction: definitions under `SaModel.Read` that C17's headline theorems
+cover, contain a `panic` branch and are named by no reference (`UNLINKED-PANIC …`).
 -/
 namespace SaModel.Props.SiteLinkCheck
 open Lean Elab Command
@@ -121,6 +123,21 @@ syntax (name := checkSiteLinks) "#check_site_links " ("all" <|> "readers") : com
       logInfo m!"LINK {d}@{th}: {v.defName} @ {v.thmName} {how}{pb} ({sites.length} sites)"
     | .error e =>
       bad := bad.push s!"site link `model:{d}@{th}` of translator/arith_sites.json is broken: {e}; sites: {sites}"
+  if readersOnly then
+    -- the other direction (informational): panic branches of the reader model that no reference names
+    let mut heads : Array Name := #[]
+    for h in readerHeadlines do
+      if let some (.thmInfo t) := env.find? h then heads := heads ++ t.type.getUsedConstants
+    let covered := reachable env heads
+    let linked : List Name := rows.filterMap fun (d, _, _, _, _) =>
+      (model.find? fun (n, ci) => d.toName.isSuffixOf n && isModelDef n && (defValue? ci).isSome && !(env.isProjectionFn n)).map (·.1)
+    let mut unlinked : Array Name := #[]
+    for (n, ci) in model do
+      if (`SaModel.Read).isPrefixOf n && isModelDef n && (defValue? ci).isSome && covered.contains n && !linked.contains n
+          && !ci.type.getForallBody.isProp then
+        let own := reachable env #[n] (own := some n)
+        if own.contains `SaModel.panic || own.contains `SaModel.Fail.panic then unlinked := unlinked.push n
+    logInfo m!"UNLINKED-PANIC definitions of the reader model with a panic branch that no site reference names (branches of the pinned readers, or of a second lookup the code does not make): {unlinked.qsort (fun a b => a.toString < b.toString)}"
   if !bad.isEmpty then
     throwError "gen_arith_site_links: {bad.size} broken link(s)\n{"\n".intercalate bad.toList}"
   logInfo m!"LINKS {rows.length} references checked{if readersOnly then " (reader side)" else ""}, {nDirect} named in the statement, {nPanic} with a panic branch"
